@@ -68,6 +68,26 @@ def generate(seed, tier):
         block['eqs'].append(['t', '2010.0 + 0.25*k'])
     case = {'kind': 'GEN', 'bundled': None, 'block': block, 'faults': faults, 'time_axis': ta,
             'knobs': {'reduction': S['knobs'].random() < 0.25}}
+    if S['swarm'].random() < 0.1:
+        # a model variable that happens to be called like a local of the emitted module's step function (all legal names)
+        import re
+        pool_v = [v for v, _ in block['eqs'] if v not in ('t',)]
+        old_name = pool_v[S['swarm'].randrange(len(pool_v))]
+        new_name = S['swarm'].choice(['err', 'cnt', 'new_vector', 'in_vec', 'err', 'cnt', 'val1', 'obj', 'main', 'pprint',
+                                      'PrintIterations',
+                                      # these five shadow an attribute / local the emitted class needs (known finding F24)
+                                      'orig_vector', 'STEP', 'MaxIterations', 'VariableList', 'Iterator'])
+        lag_old, lag_new = 'LAG_' + old_name, 'LAG_' + new_name
+
+        def rn(txt):
+            return re.sub(r'[A-Za-z_][A-Za-z_0-9]*',
+                          lambda m: {old_name: new_name, lag_old: lag_new}.get(m.group(0), m.group(0)), txt)
+        block['eqs'] = [[rn(v), rn(r_)] for v, r_ in block['eqs']]
+        block['lags'] = [[rn(l), rn(s_), st] for l, s_, st in block['lags']]
+        block['ics'] = [[rn(v), t_] for v, t_ in block['ics']]
+        block['exo'] = [[rn(v), t_] for v, t_ in block['exo']]
+        case['block'] = block
+        case['clash_name'] = new_name
     if S['swarm'].random() < 0.12:
         # a small sweep budget configured on the generator: the emitted module must either converge within it or refuse
         # loudly - never hand back the unconverged iterate
@@ -236,10 +256,13 @@ def execute(case):
                         'nontrivial': False}
             cause = 'within-reach-of-plain-sweeps'
         viol.append(core.violation(ID, 'generated-module-failed', 'generated-module-failed:%s:%s:%s' % (phase, cls, cause),
-                                   phase=phase, error=cls, message=str(ex)[0:200], time_axis=case.get('time_axis')))
+                                   phase=phase, error=cls, message=str(ex)[0:200], time_axis=case.get('time_axis'),
+                                   clash_name=case.get('clash_name')))
         return {'violations': viol, 'stats': stats, 'sig': sig, 'digest': core.digest([phase, cls]), 'nontrivial': True}
     stats['periods'] = steps
     stats['probes']['module_ran'] = 1
+    if case.get('clash_name'):
+        stats['probes']['variable_named_like_a_module_local'] = 1
     if case.get('bundled'):
         # the bundled SIM model: check it against its own block text with the independent parser of this harness
         block = parse_simple_block(text_in)
